@@ -1,3 +1,373 @@
 import GnpyModel
-/- Property theorems for C19 (only the property theorems and their non-vacuity examples live here;
-   helper lemmas go to GnpyProofs/Lemmas). -/
+import GnpyProofs.Lemmas.RoundHE
+import GnpyProofs.Lemmas.Response
+/- Property theorems for C19 — the reported response states exactly what was computed for each request.
+   Model: GnpyModel/Response.lean. -/
+namespace Gnpy.Response
+open Gnpy.HE
+open Gnpy.Verdict (Pen)
+set_option linter.unusedSectionVars false
+
+/-! ### every request once, under its id -/
+
+theorem pathResult_id (req : Req ℝ) (path : List El) (fwd rev : Option (Recv ℝ)) (j : J ℝ)
+    (h : pathResult req path fwd rev = .ok j) : j.get? "response-id" = some (.str req.id) := by
+  unfold pathResult at h
+  cases hb : req.blocking with
+  | none =>
+    rw [hb] at h; simp only at h
+    cases hp : pathProperties req path fwd rev with
+    | error e => rw [hp] at h; simp at h
+    | ok p => rw [hp] at h; simp only [Except.ok.injEq] at h; subst h; simp [J.get?]
+  | some b =>
+    rw [hb] at h; simp only at h
+    split at h
+    · simp only [Except.ok.injEq] at h; subst h; simp [J.get?]
+    · cases hp : pathProperties req path fwd rev with
+      | error e => rw [hp] at h; simp at h
+      | ok p => rw [hp] at h; simp only [Except.ok.injEq] at h; subst h; simp [J.get?]
+
+theorem mapM_ok_length {β γ : Type} (f : β → Except String γ) (l : List β) (out : List γ)
+    (h : l.mapM f = .ok out) : out.length = l.length ∧ ∀ i (hi : i < l.length) (ho : i < out.length),
+      f l[i] = .ok out[i] := by
+  induction l generalizing out with
+  | nil => simp [List.mapM_nil, pure, Except.pure] at h; subst h; simp
+  | cons x xs ih =>
+    rw [List.mapM_cons] at h
+    cases hx : f x with
+    | error e => rw [hx] at h; simp [bind, Except.bind] at h
+    | ok y =>
+      rw [hx] at h
+      cases hxs : xs.mapM f with
+      | error e => rw [hxs] at h; simp [bind, Except.bind] at h
+      | ok ys =>
+        rw [hxs] at h
+        simp only [bind, Except.bind, pure, Except.pure, Except.ok.injEq] at h
+        subst h
+        obtain ⟨h1, h2⟩ := ih ys hxs
+        refine ⟨by simp [h1], ?_⟩
+        intro i hi ho
+        cases i with
+        | zero => simpa using hx
+        | succ k => simpa using h2 k (by simpa using hi) (by simpa using ho)
+
+/-- **one response per request**: the response list has exactly one entry per (aggregated) request, in order, and
+entry `i` carries the id of request `i` -/
+theorem one_response_per_request (rs : List (Res ℝ)) (out : List (J ℝ)) (h : resultsToJson rs = .ok out) :
+    out.length = rs.length ∧
+    ∀ i (hi : i < rs.length) (ho : i < out.length), out[i].get? "response-id" = some (.str rs[i].req.id) := by
+  obtain ⟨h1, h2⟩ := mapM_ok_length _ rs out h
+  exact ⟨h1, fun i hi ho => pathResult_id _ _ _ _ _ (h2 i hi ho)⟩
+
+/-! ### aggregation -/
+
+/-- **aggregation_spec.** For any request list with distinct positions whose entries are consistent with per-id
+bandwidth / N / M tables (in particular the initial list, every request being its own single component):
+the id components of the output are a permutation of those of the input (every input id in exactly one output
+id when the input ids are distinct), the total bandwidth is conserved, and every output request carries the joined
+id of its components, the SUM of their bandwidths and the concatenation of their N and M. -/
+theorem aggregation_spec {κ : Type} [DecidableEq κ] (bw0 : String → ℝ) (n0 m0 : String → List (Option Int))
+    (rs : List (AReq κ ℝ)) (hnd : (rs.map (·.pos)).Nodup) (hc : ∀ r ∈ rs, Consistent bw0 n0 m0 r) :
+    (allParts (requestsAggregation rs)).Perm (allParts rs) ∧
+    totalBw (requestsAggregation rs) = totalBw rs ∧
+    ∀ r ∈ requestsAggregation rs,
+      r.idStr = " | ".intercalate r.parts ∧ r.bw = (r.parts.map bw0).sum ∧
+      r.n = r.parts.flatMap n0 ∧ r.m = r.parts.flatMap m0 := by
+  have hinv : Inv bw0 n0 m0 rs rs := ⟨hnd, List.Perm.refl _, rfl, hc⟩
+  have h := foldl_aggStep_inv bw0 n0 m0 rs rs (List.range rs.length) hinv
+  refine ⟨h.parts, h.bw, ?_⟩
+  intro r hr
+  obtain ⟨a, b, c⟩ := h.cons r hr
+  exact ⟨rfl, a, b, c⟩
+
+/-- with distinct input ids every input id sits in exactly one output id -/
+theorem aggregation_exactly_once {κ : Type} [DecidableEq κ] (bw0 : String → ℝ) (n0 m0 : String → List (Option Int))
+    (rs : List (AReq κ ℝ)) (hnd : (rs.map (·.pos)).Nodup) (hc : ∀ r ∈ rs, Consistent bw0 n0 m0 r)
+    (hids : (allParts rs).Nodup) (x : String) (hx : x ∈ allParts rs) :
+    (allParts (requestsAggregation rs)).count x = 1 := by
+  have hp := (aggregation_spec bw0 n0 m0 rs hnd hc).1
+  rw [hp.count_eq]
+  exact List.count_eq_one_of_mem hids hx
+
+/-! ### shapes -/
+
+/-- **blocked, no path**: only the id and the reason -/
+theorem blocked_nopath_shape (req : Req ℝ) (path : List El) (fwd rev : Option (Recv ℝ)) (b : String)
+    (hb : req.blocking = some b) (hn : blockingNoPath.contains b = true) :
+    pathResult req path fwd rev =
+      .ok (.obj [("response-id", .str req.id), ("no-path", .obj [("no-path", .str b)])]) := by
+  have hn' : b ∈ blockingNoPath := by simpa using hn
+  simp [pathResult, hb, hn']
+
+/-- no route object produced for a blocked request carries a label hop -/
+theorem hopObjs_no_labels (tsp : String) (mode : Option String) (idx : Nat) (path : List El) :
+    ∀ o ∈ hopObjs (α := ℝ) tsp mode none idx path, (proOf o).hasKey "label-hop" = false := by
+  induction path generalizing idx with
+  | nil => simp [hopObjs]
+  | cons e rest ih =>
+    intro o ho
+    simp only [hopObjs, List.mem_cons, List.nil_append, List.length_nil, Nat.add_zero] at ho
+    rcases ho with ho | ho
+    · subst ho; simp [proOf, pro, J.get?, J.hasKey, List.lookup]
+    · rcases List.mem_append.1 ho with ho | ho
+      · by_cases ht : e.isTrx = true
+        · simp only [ht, if_true, List.mem_singleton] at ho
+          subst ho; simp [proOf, pro, J.get?, J.hasKey, List.lookup]
+        · simp [ht] at ho
+      · exact ih _ o ho
+
+/-- **blocked with properties**: the reason is present, the path properties are attached under `no-path`, and no
+route object carries N/M labels (a blocked request that still has N or M is refused with ServiceError) -/
+theorem blocked_shape (req : Req ℝ) (path : List El) (fwd rev : Option (Recv ℝ)) (b : String) (j : J ℝ)
+    (hb : req.blocking = some b) (hn : blockingNoPath.contains b = false)
+    (h : pathResult req path fwd rev = .ok j) :
+    ∃ p d, pathProperties req path fwd rev = .ok p ∧
+      j = .obj [("response-id", .str req.id), ("no-path", .obj [("no-path", .str b), ("path-properties", p)])] ∧
+      p.get? "path-route-objects" = some (.arr d) ∧
+      (∀ o ∈ d, (proOf o).hasKey "label-hop" = false) ∧
+      (path ≠ [] → req.n = none ∧ req.m = none) := by
+  unfold pathResult at h
+  rw [hb] at h; simp only [hn] at h
+  cases hp : pathProperties req path fwd rev with
+  | error e => rw [hp] at h; simp at h
+  | ok p =>
+    rw [hp] at h
+    simp only [Bool.false_eq_true, if_false, Except.ok.injEq] at h
+    -- analyse pathProperties
+    have hd : ∃ d, detailedPath req path = .ok d ∧ p.get? "path-route-objects" = some (.arr d) := by
+      unfold pathProperties at hp
+      cases fwd with
+      | none => simp at hp
+      | some f =>
+        simp only at hp
+        split at hp
+        · cases rev with
+          | none => simp at hp
+          | some r =>
+            simp only at hp
+            cases hdp : detailedPath req path with
+            | error e => rw [hdp] at hp; simp at hp
+            | ok d => rw [hdp] at hp; simp only [Except.ok.injEq] at hp; subst hp; exact ⟨d, rfl, by simp [J.get?, List.lookup]⟩
+        · cases hdp : detailedPath req path with
+          | error e => rw [hdp] at hp; simp at hp
+          | ok d => rw [hdp] at hp; simp only [Except.ok.injEq] at hp; subst hp; exact ⟨d, rfl, by simp [J.get?, List.lookup]⟩
+    obtain ⟨d, hdp, hget⟩ := hd
+    refine ⟨p, d, rfl, h.symm, hget, ?_, ?_⟩
+    · unfold detailedPath at hdp
+      cases path with
+      | nil => simp only [Except.ok.injEq] at hdp; subst hdp; simp
+      | cons e rest =>
+        simp only [hb] at hdp
+        cases hn' : req.n <;> cases hm' : req.m <;> rw [hn', hm'] at hdp <;> simp at hdp
+        subst hdp
+        exact hopObjs_no_labels _ _ _ _
+    · intro hne
+      unfold detailedPath at hdp
+      cases path with
+      | nil => exact absurd rfl hne
+      | cons e rest =>
+        simp only [hb] at hdp
+        cases hn' : req.n <;> cases hm' : req.m <;> rw [hn', hm'] at hdp <;> simp at hdp
+        exact ⟨rfl, rfl⟩
+
+/-- **served**: id and path properties only; route objects are, for every element of the propagated path in order,
+the hop, then the label hop with the assigned (N, M) pairs, then — on transceivers — the transponder object with
+the request's type and mode; indices count up from 0 -/
+theorem served_shape (req : Req ℝ) (path : List El) (fwd rev : Option (Recv ℝ)) (j : J ℝ)
+    (hb : req.blocking = none) (hne : path ≠ []) (h : pathResult req path fwd rev = .ok j) :
+    ∃ p n m, pathProperties req path fwd rev = .ok p ∧ req.n = some n ∧ req.m = some m ∧
+      j = .obj [("response-id", .str req.id), ("path-properties", p)] ∧
+      p.get? "path-route-objects" = some (.arr (hopObjs req.tsp req.tspMode
+        (some (.arr ((n.zip m).map (fun nm => .obj [("N", jOptInt nm.1), ("M", jOptInt nm.2)])))) 0 path)) := by
+  unfold pathResult at h
+  rw [hb] at h; simp only at h
+  cases hp : pathProperties req path fwd rev with
+  | error e => rw [hp] at h; simp at h
+  | ok p =>
+    rw [hp] at h
+    simp only [Except.ok.injEq] at h
+    have hd : ∃ d, detailedPath req path = .ok d ∧ p.get? "path-route-objects" = some (.arr d) := by
+      unfold pathProperties at hp
+      cases fwd with
+      | none => simp at hp
+      | some f =>
+        simp only at hp
+        split at hp
+        · cases rev with
+          | none => simp at hp
+          | some r =>
+            simp only at hp
+            cases hdp : detailedPath req path with
+            | error e => rw [hdp] at hp; simp at hp
+            | ok d => rw [hdp] at hp; simp only [Except.ok.injEq] at hp; subst hp; exact ⟨d, rfl, by simp [J.get?, List.lookup]⟩
+        · cases hdp : detailedPath req path with
+          | error e => rw [hdp] at hp; simp at hp
+          | ok d => rw [hdp] at hp; simp only [Except.ok.injEq] at hp; subst hp; exact ⟨d, rfl, by simp [J.get?, List.lookup]⟩
+    obtain ⟨d, hdp, hget⟩ := hd
+    unfold detailedPath at hdp
+    cases path with
+    | nil => exact absurd rfl hne
+    | cons e rest =>
+      simp only [hb] at hdp
+      cases hn' : req.n with
+      | none => rw [hn'] at hdp; simp at hdp
+      | some n =>
+        cases hm' : req.m with
+        | none => rw [hn', hm'] at hdp; simp at hdp
+        | some m =>
+          rw [hn', hm'] at hdp
+          simp only [Except.ok.injEq] at hdp
+          subst hdp
+          exact ⟨p, n, m, rfl, rfl, rfl, h.symm, hget⟩
+
+/-- the transponder objects of a path carry the request's type and mode (the SELECTED mode, `tsp_mode`) -/
+theorem hopObjs_transponder (tsp : String) (mode : Option String) (labels : Option (J ℝ)) (idx : Nat) (path : List El) :
+    ∀ o ∈ hopObjs tsp mode labels idx path, ∀ t, (proOf o).get? "transponder" = some t →
+      t = .obj [("transponder-type", .str tsp), ("transponder-mode", jOptStr mode)] := by
+  induction path generalizing idx with
+  | nil => simp [hopObjs]
+  | cons e rest ih =>
+    intro o ho t ht
+    simp only [hopObjs, List.mem_cons] at ho
+    rcases ho with ho | ho
+    · subst ho; simp [proOf, pro, J.get?, List.lookup] at ht
+    · rcases List.mem_append.1 ho with ho | ho
+      · rcases List.mem_append.1 ho with ho | ho
+        · cases labels with
+          | none => simp at ho
+          | some l =>
+            simp only [List.mem_singleton] at ho
+            subst ho; simp [proOf, pro, J.get?, List.lookup] at ht
+        · by_cases hte : e.isTrx = true
+          · simp only [hte, if_true, List.mem_singleton] at ho
+            subst ho
+            simp [proOf, pro, J.get?, List.lookup] at ht
+            exact ht.symm
+          · simp [hte] at ho
+      · exact ih _ o ho t ht
+
+/-- **bidirectional requests carry both directions**: `path-metric` is computed from the forward receiver and
+`z-a-path-metric` from the REVERSE receiver; a unidirectional request has no `z-a-path-metric` -/
+theorem bidir_has_both (req : Req ℝ) (path : List El) (f r : Recv ℝ) (p : J ℝ)
+    (h : pathProperties req path (some f) (some r) = .ok p) :
+    p.get? "path-metric" = some (pathMetric f req.power req.pathBandwidth) ∧
+    (req.bidir = true → p.get? "z-a-path-metric" = some (pathMetric r req.power req.pathBandwidth)) ∧
+    (req.bidir = false → p.get? "z-a-path-metric" = none) := by
+  unfold pathProperties at h
+  simp only at h
+  cases hbd : req.bidir with
+  | true =>
+    rw [hbd] at h; simp only [if_true] at h
+    cases hdp : detailedPath req path with
+    | error e => rw [hdp] at h; simp at h
+    | ok d => rw [hdp] at h; simp only [Except.ok.injEq] at h; subst h; simp [J.get?, List.lookup]
+  | false =>
+    rw [hbd] at h; simp only [Bool.false_eq_true, if_false] at h
+    cases hdp : detailedPath req path with
+    | error e => rw [hdp] at h; simp at h
+    | ok d => rw [hdp] at h; simp only [Except.ok.injEq] at h; subst h; simp [J.get?, List.lookup]
+
+/-- **metrics are the receiver's values rounded to two decimals**: each metric of a direction is read from the
+receiver handed in for THAT direction -/
+theorem metrics_are_receiver_values (r : Recv ℝ) (power bw : ℝ) :
+    pathMetric r power bw = .arr
+      [ metricEntry "SNR-bandwidth" (.num (round2 (mean r.snr))),
+        metricEntry "SNR-0.1nm" (.num (round2 (mean r.snr01))),
+        metricEntry "OSNR-bandwidth" (.num (round2 (mean r.osnrAse))),
+        metricEntry "OSNR-0.1nm" (.num (round2 (mean r.osnrAse01))),
+        metricEntry "lowest_SNR-0.1nm" (optNum (minL r.snr01)),
+        metricEntry "biggest_SNR-0.1nm" (optNum (maxL r.snr01)),
+        metricEntry "PDL_penalty" (penMetric r "pdl"),
+        metricEntry "CD_penalty" (penMetric r "chromatic_dispersion"),
+        metricEntry "PMD_penalty" (penMetric r "pmd"),
+        metricEntry "reference_power" (.num power),
+        metricEntry "path_bandwidth" (.num bw) ] ∧
+    (∀ v, minL r.snr01 = some v → v ∈ r.snr01 ∧ ∀ x ∈ r.snr01, v ≤ x) ∧
+    |round2 (mean r.snr01) - mean r.snr01| ≤ 1 / 200 := by
+  refine ⟨rfl, ?_, abs_round2_sub_le _⟩
+  intro v hv
+  cases hl : r.snr01 with
+  | nil => rw [hl] at hv; simp [minL] at hv
+  | cons a rest =>
+    rw [hl] at hv
+    simp only [minL, Option.some.injEq] at hv
+    subst hv
+    have key : ∀ (l : List ℝ) (a : ℝ),
+        (l.foldl (fun a b => if b < a then b else a) a ∈ a :: l) ∧
+        (l.foldl (fun a b => if b < a then b else a) a ≤ a) ∧
+        ∀ x ∈ l, l.foldl (fun a b => if b < a then b else a) a ≤ x := by
+      intro l
+      induction l with
+      | nil => intro a; simp
+      | cons b bs ih =>
+        intro a
+        simp only [List.foldl_cons]
+        by_cases hba : b < a
+        · simp only [hba, if_true]
+          obtain ⟨i1, i2, i3⟩ := ih b
+          refine ⟨?_, le_trans i2 (le_of_lt hba), ?_⟩
+          · rcases List.mem_cons.1 i1 with i1 | i1
+            · rw [i1]; simp
+            · exact List.mem_cons_of_mem _ (List.mem_cons_of_mem _ i1)
+          · intro x hx
+            rcases List.mem_cons.1 hx with hx | hx
+            · subst hx; exact i2
+            · exact i3 x hx
+        · simp only [hba, if_false]
+          obtain ⟨i1, i2, i3⟩ := ih a
+          refine ⟨?_, i2, ?_⟩
+          · rcases List.mem_cons.1 i1 with i1 | i1
+            · rw [i1]; simp
+            · exact List.mem_cons_of_mem _ (List.mem_cons_of_mem _ i1)
+          · intro x hx
+            rcases List.mem_cons.1 hx with hx | hx
+            · subst hx; exact le_trans i2 (not_lt.1 hba)
+            · exact i3 x hx
+    obtain ⟨k1, k2, k3⟩ := key rest a
+    refine ⟨k1, ?_⟩
+    intro x hx
+    rcases List.mem_cons.1 hx with hx | hx
+    · subst hx; exact k2
+    · exact k3 x hx
+
+/-! ### CSV -/
+
+/-- **CSV row = response values**: the fifteen parameter columns are, in order, the response's (re-rounded)
+metrics, the library's required OSNR plus the system margin, baud rate, power, hop string, spectrum string, bit
+rate; the SNR min/max and penalty columns are the response's values verbatim -/
+theorem csv_consistent (osnr snr snrbw smin smax pdl cd pmd power pbw : J ℝ) (mode : ModeInfo ℝ) (margin : ℝ)
+    (pth sptrm : String) :
+    ∃ vals, paramVals [osnr, snr, snrbw, smin, smax, pdl, cd, pmd, power, pbw] mode margin pth sptrm = some vals ∧
+      (paramFields.zip vals).lookup "SNR-0.1nm (min)" = some smin ∧
+      (paramFields.zip vals).lookup "SNR-0.1nm (max)" = some smax ∧
+      (paramFields.zip vals).lookup "OSNR-0.1nm (average)" = some osnr ∧
+      (paramFields.zip vals).lookup "SNR-0.1nm (average)" = some snr ∧
+      (paramFields.zip vals).lookup "PDL_penalty" = some pdl ∧
+      (paramFields.zip vals).lookup "CD_penalty" = some cd ∧
+      (paramFields.zip vals).lookup "PMD_penalty" = some pmd ∧
+      (paramFields.zip vals).lookup "min required OSNR (inc. margin)" = some (.num (mode.osnr + margin)) ∧
+      (paramFields.zip vals).lookup "path" = some (.str pth) ∧
+      (paramFields.zip vals).lookup "spectrum (N,M)" = some (.str sptrm) := by
+  refine ⟨_, rfl, ?_⟩
+  simp [paramFields, List.lookup]
+
+/-- **pass flag = margin-inclusive threshold**: with a reported lowest SNR the flag is `lowest ≥ OSNR + margin` -/
+theorem csv_pass_iff (x avg osnr margin : ℝ) :
+    passFlag (.num x) (.num avg) (.num (osnr + margin)) = .ok (decide (osnr + margin ≤ x)) := by
+  simp [passFlag, geJ]
+
+/-- a request blocked without a path gives a row with only its id and the reason in the `Pass?` column -/
+theorem csv_nopath_row (rid b : String) (lib : List (ModeInfo ℝ)) (margin : ℝ) (hn : blockingNoPath.contains b = true) :
+    csvRow (.obj [("response-id", .str rid), ("no-path", .obj [("no-path", .str b)])]) lib margin =
+      .ok (⟨[("response-id", .str rid), ("Pass?", .str b)]⟩, none, .str "") := by
+  have hn' : b ∈ blockingNoPath := by simpa using hn
+  simp [csvRow, J.get?, List.lookup, hn', bind, Except.bind, pure, Except.pure]
+
+/-! ### non-vacuity -/
+example : (requestsAggregation
+    [({ pos := 0, parts := ["a"], key := 7, hasMode := true, bw := 100, n := [none], m := [none] } : AReq Nat Int),
+     { pos := 1, parts := ["b"], key := 7, hasMode := true, bw := 300, n := [none], m := [none] }]).map
+      (fun r => (r.parts, r.bw)) = [(["b", "a"], 400)] := by
+  decide
+
+end Gnpy.Response
